@@ -298,6 +298,43 @@ impl ProgFamily for WithDirectives {
     }
 }
 
+
+/// Files without a module declaration (they can hold file attributes, comments and directives, but no definition),
+/// alone and before / between / after ordinary files.
+pub struct ModuleLessFiles;
+impl ProgFamily for ModuleLessFiles {
+    fn name(&self) -> String {
+        "module-less-files/files with 0..2 file attributes and no module, alone and at every position among 1..2 ordinary files x 6 layouts".into()
+    }
+    fn len(&self) -> u64 {
+        3 * 6 * 6 * 4
+    }
+    fn get(&self, idx: u64) -> PCase {
+        let layouts = six_layouts();
+        let layout = layouts[(idx % 6) as usize].clone();
+        let n_attrs = ((idx / 6) % 3) as usize;
+        let arrangement = (idx / 18) % 6;
+        let k = ((idx / 108) % 4) as usize;
+        let mut bare = MFile { file_attrs: vec![], module: None, defs: vec![], pre: vec![] };
+        let forms = [MAttr::with("cs::namespace", vec![MArg::Str("N".into())]), MAttr::with("allow", vec![MArg::Ident("All".into())])];
+        bare.file_attrs = forms[..n_attrs].to_vec();
+        let ordinary = |i: usize| {
+            let mut f = MFile::module(["M", "Other"][i % 2]);
+            f.defs.push(construct([0usize, 7, 15, 22][(k + i) % 4], i, "Lib::"));
+            f
+        };
+        let program = match arrangement {
+            0 => vec![bare, lib_file()],
+            1 => vec![bare, ordinary(0), lib_file()],
+            2 => vec![ordinary(0), bare, lib_file()],
+            3 => vec![ordinary(0), lib_file(), bare],
+            4 => vec![bare.clone(), ordinary(0), bare, ordinary(1), lib_file()],
+            _ => vec![ordinary(0), bare.clone(), ordinary(1), lib_file(), bare],
+        };
+        PCase { program, layout, label: format!("module-less file with {n_attrs} attributes, arrangement {arrangement}"), may_warn: true }
+    }
+}
+
 pub fn program_families(tier: &str) -> Vec<Box<dyn ProgFamily>> {
     let quick = tier == "quick";
     let mut v: Vec<Box<dyn ProgFamily>> = vec![
@@ -307,6 +344,7 @@ pub fn program_families(tier: &str) -> Vec<Box<dyn ProgFamily>> {
         Box::new(IntSpellings::new()),
         Box::new(StringArgs::new(if quick { 3 } else { 4 })),
         Box::new(AttrPositions::new()),
+        Box::new(ModuleLessFiles),
         Box::new(PerGap::new(if quick { 6 } else { 8 })),
         Box::new(Sequences { depth: 2, layouts: six_layouts(), full_product: true }),
         Box::new(WithDirectives { inner: Sequences { depth: 2, layouts: six_layouts(), full_product: false } }),
